@@ -14,4 +14,6 @@ mod order;
 #[cfg(kani)]
 mod dnssec;
 #[cfg(kani)]
+mod symbols;
+#[cfg(kani)]
 mod playback_gen;
